@@ -72,9 +72,11 @@ From UomV Require Import Spec.RefAnchors.
 Theorem c05_reference_values : forallb anchor_exact reference_values = true /\ List.length reference_values = 220%nat.
 Proof. split; vm_compute; reflexivity. Qed.
 
-(* only the two temperature-point scales carry an offset *)
-Theorem c05_only_two_offsets :
-  offset_units = [("thermodynamic_temperature", "degree_celsius"); ("thermodynamic_temperature", "degree_fahrenheit")].
+(* offsets exist only on temperature POINTS (never on an interval or on any other quantity), and the Celsius and Fahrenheit scales are
+   among them; further offset scales may be added to that one quantity *)
+Theorem c05_offsets_only_on_temperature_points :
+  forallb (fun p => String.eqb (fst p) "thermodynamic_temperature") offset_units
+  && forallb (fun n => existsb (fun p => String.eqb (snd p) n) offset_units) ["degree_celsius"; "degree_fahrenheit"] = true.
 Proof. vm_compute. reflexivity. Qed.
 
 (* (5) the prefix! table *)
